@@ -64,7 +64,15 @@ def add_gadgets(rng, m):
         return m["n"] - 1
     kind = rng.random()
     base = F(rng.randint(-3, 0 if nonpos else 3))
-    if kind < .5:
+    if kind < .2:
+        # (c) boundary of the implicit-absorbing rule: zero-reward state whose every action self-loops with
+        # probability 1 - 2^-k (NOT absorbing), escaping to a state of non-zero value
+        k = rng.choice([10, 17, 20, 30])
+        s = new_state([0, 1])
+        for a in (0, 1):
+            m["trans"]["%d,%d" % (s, a)] = [[s, str(1 - F(1, 2 ** k))], [tgt, str(F(1, 2 ** k))]]
+        m["init"] = [[x, str(F(p) / 2)] for x, p in m["init"]] + [[s, "1/2"]]
+    elif kind < .6:
         k = rng.choice([2, 4, 6, 8, 10, 12, 16, 20])
         s = new_state([0, 1])
         m["trans"]["%d,0" % s] = [[tgt, "1"]]
@@ -325,6 +333,15 @@ def run(ctx):
             ctx.violation("C01:impl-error:" + res["error"].split(":")[0], {"case": case, "error": res["error"]}, found=True)
             continue
         mt = mdp_terms(case, res)
+        # the masks msdm applies (absorbing / cannot-reach-absorbing) must be the model's
+        P_, R_, av_, absf_, ini_ = gen_mdp.arrays(case["mdp"], res["state_list"], res["action_list"])
+        m_abs, m_unable = model_masks(P_, R_, av_, absf_, F(case["mdp"]["gamma"]))
+        if [bool(x) for x in res["absorbing_vec"]] != m_abs or [bool(x) for x in res["unable_vec"]] != m_unable:
+            ctx.violation("C01:masks:absorbing-or-unreachable-goal-mask-differs-from-model",
+                          {"case": case, "impl_absorbing": res["absorbing_vec"], "model_absorbing": m_abs,
+                           "impl_unable": res["unable_vec"], "model_unable": m_unable,
+                           "correspondence": "model/MDP.v:absorbing / unable_to_reach (exact comparisons) vs TabularMarkovDecisionProcess.absorbing_state_vec / _unable_to_reach_absorbing"},
+                          found=False)
         for planner in ("vi_vec", "vi_dict", "pi"):
             out = res["planners"][planner]
             if "error" in out:
